@@ -155,6 +155,40 @@ def run_audit(props, repo_root, jobs=16, into_evidence=False, verbose=False):
                     print(f"SEED  {res['status']:28s} {p} {res['seed']} rules={res.get('rules')}")
         n_det = sum(1 for rs in seed_results.values() for r in rs if r["status"] == "detected")
         print(f"SEED summary: {sum(len(v) for v in seed_results.values())} replays, {n_det} detected")
+    # behaviour-preserving maintainer changes (/verif/benign_corpus): every check stays quiet on every one of them
+    benign_results = {}
+    benign_root = VERIF / "benign_corpus"
+    n_alarm = 0
+    if benign_root.is_dir():
+        allowed = {}
+        try:
+            sys.path.insert(0, str(VERIF / "tools"))
+            import benign_corpus as _bc
+            allowed = dict(_bc.EXPECTED_UNDECIDED)
+        except Exception:
+            allowed = {}
+        finally:
+            if str(VERIF / "tools") in sys.path:
+                sys.path.remove(str(VERIF / "tools"))
+        bjobs = [(d, p) for d in sorted(benign_root.iterdir()) if (d / "patch.diff").exists() for p in props]
+        with ThreadPoolExecutor(max_workers=jobs) as ex:
+            for (d, p), res in zip(bjobs, ex.map(lambda dp: _run_seed(dp[0], dp[1], repo_root), bjobs)):
+                st = res["status"]
+                if st == "detected":
+                    kind = "ALARM"
+                elif st == "analysis-error":
+                    kind = "undecided (expected)" if allowed.get(d.name, ("",))[0] == p else "ALARM (cannot decide)"
+                elif st == "skipped":
+                    kind = "skipped"
+                else:
+                    kind = "quiet"
+                benign_results.setdefault(p, []).append({"change": d.name, "verdict": kind, "rules": res.get("rules")})
+                if kind.startswith("ALARM"):
+                    n_alarm += 1
+                    print(f"BENIGN {kind:22s} {p} {d.name} rules={res.get('rules')}")
+                elif verbose or kind.startswith("undecided"):
+                    print(f"BENIGN {kind:22s} {p} {d.name}")
+        print(f"BENIGN summary: {len(bjobs)} replays of {len({d.name for d, _ in bjobs})} behaviour-preserving changes, {n_alarm} alarms")
     if into_evidence:
         for p in props:
             f = VERIF / "evidence" / f"{p}.json"
@@ -170,6 +204,8 @@ def run_audit(props, repo_root, jobs=16, into_evidence=False, verbose=False):
                     "silent_variants": [f"{r['id']}: {r['what']}" for r in mine if r["expect"] == "silent" and r["status"] == "ok"][:40],
                 }
                 ev["coverage"]["seeded_changes_replayed"] = seed_results.get(p, [])
+                br = benign_results.get(p, [])
+                ev["coverage"]["behaviour_preserving_changes_replayed"] = {"changes": len(br), "quiet": sum(1 for b in br if b["verdict"] == "quiet"), "not_quiet": [b for b in br if b["verdict"] != "quiet"]}
                 ev["wall_s"] = round(ev.get("wall_s", 0) + (time.time() - t0), 3)
                 f.write_text(json.dumps(ev, indent=1))
-    return 0 if not n_bad else 3
+    return 0 if not n_bad and not n_alarm else 3
